@@ -17,7 +17,8 @@ RULE = ("A dataset of n sorted entries on a genome of 1..4 chromosomes and a set
         "per-chromosome pipelines built from the stream with Genome.get_intervals and evaluated with bnp.compute: pileup records, mask sum, "
         "pileup histogram, pileup sum, the column mean of the pileup under equal-length windows, and the same reductions evaluated together by one "
         "bnp.compute call on a tuple or dict of nodes (every subset of mean, sum, histogram); and the element-wise @streamable functions "
-        "get_strand_specific_sequences and get_sequences applied to a stream of stranded intervals. Oracle: the same computation on the "
+        "get_strand_specific_sequences and get_sequences applied to a stream of stranded intervals; and one collection of 1.15 million 3-mers counted "
+        "whole and in three chunkings (the counting works in blocks of a million values). Oracle: the same computation on the "
         "concatenated table through the in-memory path and an independent Python computation; floats within 1e-9 relative; values compared "
         "after flattening. Re-chunking: concatenated output == input in order and every chunk except the last has exactly m entries. "
         "Non-trivial: a chunking with a cut strictly inside a chromosome group, or a single-entry chunk, or a short last chunk.")
@@ -27,7 +28,7 @@ ASSUMPTIONS = [
     "Entries of one chromosome are contiguous and chromosomes appear in genome order (the streaming precondition; C12 covers its violation).",
 ]
 REQUIRED_CLASSES = ["cut-inside-group", "single-entry-chunk", "short-last-chunk", "one-chunk", "empty-chromosome", "trailing-empty-chromosome",
-                    "mean", "bincount", "histogram", "count_kmers", "groupby", "groupby-str", "chunk_entries", "pileup", "mask-sum", "pileup-histogram", "window-mean", "joint", "streamable-map"]
+                    "mean", "bincount", "histogram", "count_kmers", "groupby", "groupby-str", "chunk_entries", "pileup", "mask-sum", "pileup-histogram", "window-mean", "joint", "streamable-map", "more-than-a-million-kmers"]
 BOUNDS = {"quick": "all 128 chunkings of n = 8 entries x 15 computations x 10 datasets; 1000 sampled", "thorough": "all 512 chunkings for n = 10 on 12 datasets and all 2048 for n = 12 on 4 datasets; 19200 sampled (n up to 300)"}
 BUDGET_S = {"quick": 200, "thorough": 1500}
 
@@ -46,6 +47,8 @@ def chunks_of(table, cuts):
 
 
 def classify(case):
+    if case["comp"] == "big-count":
+        return True, ["count_kmers", "more-than-a-million-kmers"] + (["one-chunk"] if not case["cuts"] else [])
     ents = case["entries"]
     n = len(ents)
     cuts = sorted(set(c for c in case["cuts"] if 0 < c < n))
@@ -71,7 +74,35 @@ def classify(case):
     return inside or ("single-entry-chunk" in cl) or ("short-last-chunk" in cl), cl
 
 
+def check_big_count(case):
+    """The in-memory call on the whole collection (no cuts) or the streamed call over the chunks must equal a plain NumPy count."""
+    import numpy as np
+    import bionumpy as bnp
+    from bionumpy.sequence import count_kmers
+    lengths, k, cuts = case["lengths"], case["k"], case["cuts"]
+    codes = [((np.arange(L, dtype=np.int64) * 2654435761 + 97 * j) >> 9) % 4 for j, L in enumerate(lengths)]
+    rows = ["".join("ACGT"[c] for c in row.tolist()) for row in codes]
+    want = np.zeros(4 ** k, dtype=np.int64)
+    for row in codes:
+        if len(row) >= k:
+            want += np.bincount(sum((4 ** i) * row[i:len(row) - k + 1 + i] for i in range(k)), minlength=4 ** k)
+    labels = ["".join("ACGT"[(c >> (2 * i)) & 3] for i in range(k)) for c in range(4 ** k)]
+    want_d = {lab: int(v) for lab, v in zip(labels, want) if v}
+    pts = [0] + list(cuts) + [len(rows)]
+    chunks = [bnp.as_encoded_array(rows[a:b], bnp.DNAEncoding) for a, b in zip(pts[:-1], pts[1:])]
+    try:
+        res = count_kmers(chunks[0], k) if len(chunks) == 1 else count_kmers(bnp.streams.BnpStream(iter(chunks)), k)
+        got = {lab: int(c) for lab, c in zip(res.alphabet, np.asarray(res.counts).tolist()) if int(c)}
+    except Exception as e:
+        return [Failure(f"C11:raised:big-count:{type(e).__name__}:{_where(e)}", {"error": repr(e)[:300], "cuts": cuts})]
+    if got != want_d:
+        return [Failure("C11:count_kmers-over-a-million", {"cuts": cuts, "expected_total": int(want.sum()), "actual_total": sum(got.values())})]
+    return []
+
+
 def check(case, stats=None):
+    if case["comp"] == "big-count":
+        return check_big_count(case)
     import numpy as np
     import bionumpy as bnp
     from bionumpy.datatypes import Interval, SequenceEntry
@@ -341,8 +372,16 @@ def task_sampled(stats, known_open, n, seed, nmax):
     core.run_hypothesis(sys.modules[__name__], sampled_case(nmax), stats, known_open, max_examples=n, seed=seed)
 
 
+def task_big_count(stats, known_open):
+    """k-mer counts of more than a million k-mers (count_encoded counts in blocks of 1,000,000 values), whole and in three chunkings."""
+    import sys
+    for cuts in ([], [3], [1, 4], [1, 2, 3, 4, 5]):
+        core.run_case(sys.modules[__name__], {"comp": "big-count", "genome": [["chr1", 1]], "entries": [[0, 0, 1]], "cuts": cuts,
+                                              "lengths": [300_000, 1, 0, 450_000, 5, 400_000], "k": 3}, stats, known_open)
+
+
 def tasks(tier, seed):
-    out = []
+    out = [("task_big_count", {})]
     if tier == "quick":
         for o in range(12):
             out.append(("task_all_chunkings", dict(n=8, datasets=[0, 1, 2, 3, 4, 5, 6, 7, 8, 9], stride=12, offset=o)))
